@@ -380,9 +380,17 @@ class DisjunctionMaxMatcher(UnionMatcher):
             return max(self.a.score(), self.b.score())
 
     def max_quality(self):
+        if not self.a.is_active():
+            return self.b.max_quality()
+        elif not self.b.is_active():
+            return self.a.max_quality()
         return max(self.a.max_quality(), self.b.max_quality())
 
     def block_quality(self):
+        if not self.a.is_active():
+            return self.b.block_quality()
+        elif not self.b.is_active():
+            return self.a.block_quality()
         return max(self.a.block_quality(), self.b.block_quality())
 
     def skip_to_quality(self, minquality):
